@@ -1,1 +1,56 @@
-(* placeholder *)
+(** C02 — unfinished or aborted transactions leave no trace after recovery.
+    See Props/C01.v for the objects.  Statements only. *)
+From Coq Require Import List NArith Bool Permutation.
+From SDB Require Import Base.Assoc Model.Page Model.Wal Proofs.WalProofs.
+Import ListNotations.
+Open Scope N_scope.
+
+(** The same core theorem, read from the other side: nothing but the finished
+    transactions' work is in the tables (a transaction whose commit was in
+    progress is either finished — its COMMIT record is in the durable log — or
+    unfinished: fully present or fully absent). *)
+Theorem atomicity : forall l disk order, image_wf l disk = true ->
+  Permutation order (losers l) ->
+  forall p s, page_val (recover l order disk) p s = committed_val l p s.
+Proof. exact recover_committed. Qed.
+Print Assumptions atomicity.
+
+(** A slot that only unfinished transactions ever wrote is empty after restart:
+    their inserted rows are absent. *)
+Theorem unfinished_inserts_absent : forall l disk order p s, image_wf l disk = true ->
+  Permutation order (losers l) ->
+  forallb (fun r => negb (on_slot p s r) || memN (l_txn r) (losers l)) l = true ->
+  page_val (recover l order disk) p s = None.
+Proof. exact losers_only_none. Qed.
+Print Assumptions unfinished_inserts_absent.
+
+(** A row an unfinished transaction updated or delete-marked holds the value the
+    finished transactions gave it last. *)
+Theorem unfinished_changes_reverted : forall l disk order p s pre post, image_wf l disk = true ->
+  Permutation order (losers l) ->
+  l = pre ++ post ->
+  forallb (fun r => negb (on_slot p s r) || memN (l_txn r) (losers l)) post = true ->
+  forallb (fun r => match l_kind r with KNewPage _ p' => negb (p' =? p) | _ => true end) post = true ->
+  page_val (recover l order disk) p s =
+    slot_val (filter (fun r => negb (memN (l_txn r) (losers l))) pre) p s.
+Proof. exact loser_suffix_reverted. Qed.
+Print Assumptions unfinished_changes_reverted.
+
+(** A completed rollback cancels itself: a transaction that was aborted before
+    the crash wrote, for each forward record, the inverse record in reverse
+    order, and the slot ends where it started. *)
+Theorem rollback_cancels : forall v ks, pre_ok_seq v ks = true ->
+  fold_left slot_step (map inv_kind (rev ks)) (fold_left slot_step ks v) = v.
+Proof. exact rollback_cancel. Qed.
+Print Assumptions rollback_cancels.
+
+Example c02_nonvacuous :
+  let l := [ mkR 0 1 None KBegin; mkR 1 1 (Some 0) (KNewPage 0 5); mkR 2 1 (Some 1) (KInsert 5 0 [1;2;3]);
+             mkR 3 1 (Some 2) KCommit;
+             mkR 4 2 None KBegin; mkR 5 2 (Some 4) (KUpdate 5 0 [1;2;3] [4;4;4;4]); mkR 6 2 (Some 5) (KInsert 5 1 [7]);
+             mkR 7 2 (Some 6) (KApply 5 1 [7]); mkR 8 2 (Some 7) (KUpdate 5 0 [4;4;4;4] [1;2;3]); mkR 9 2 (Some 8) KAbort;
+             mkR 10 3 None KBegin; mkR 11 3 (Some 10) (KMark 5 0) ] in
+  let disk := [ (5, mkAP 11 [Some ([1;2;3], true); None]) ] in
+  image_wf l disk = true /\ losers l = [3] /\
+  map (page_val (recover l [3] disk) 5) [0; 1] = [Some ([1;2;3], false); None].
+Proof. vm_compute. repeat split. Qed.
